@@ -291,8 +291,17 @@ def run_window(ctx: Ctx) -> RuleResult:
                 res.finding(m, enclosing_stmt(n), 'the window bound %s is tested by truthiness: offset 0 is treated like "not given" '
                             '(the empty head window [0, 0) becomes the whole buffer)' % norm(n), construct='bound-truthiness:' + norm(n))
     pi = ts.methods.get('__post_init__')
+    from ..exprs import as_less as _al
+    def _strict_negative(attr):
+        # exactly `self.<attr> < 0` (strict: 0 is an offset, not "from the end")
+        for n_ in (pi.body_nodes() if pi else []):
+            if isinstance(n_, ast.If) and _al(n_.test) is not None:
+                lo, op_, hi = _al(n_.test)
+                if norm(lo) == 'self.%s' % attr and norm(hi) == '0':
+                    return op_ == '<'
+        return None
     ok = pi is not None and any(isinstance(n, ast.If) and norm(n.test) == 'self.end is None' for n in pi.body_nodes()) \
-        and any(isinstance(n, ast.If) and norm(n.test) == 'self.start < 0' for n in pi.body_nodes())
+        and _strict_negative('start') is True and _strict_negative('end') is True
     res.ob('%s TextSlice.__post_init__' % (pi.loc() if pi else ''), 'end=None means len(text); negative bounds count from the end', ok)
     if not ok:
         res.finding(pi or ts.qual, pi.node if pi else ts.node, 'TextSlice bound normalisation (None / negative) changed', construct='normalise',
